@@ -778,6 +778,12 @@ class Executor:
         depth = len(st.frames)
         for lid in func.locals:
             fr.locals[lid] = Cell(None, f"{short}@{depth}#_{lid}")
+            ty_ = func.locals[lid]
+            if isinstance(ty_, str) and ty_.startswith('{closure@'):
+                # a closure without captures is zero sized and never assigned in MIR; one with captures is overwritten by its aggregate
+                env = Agg({}, ty_)
+                env.bind = dict(bind or {})
+                fr.locals[lid].value = env
         fr.locals.setdefault(0, Cell(None, f"{short}@{depth}#ret"))
         if len(args) != len(func.args):
             raise Unsupported(f"arity mismatch calling {func.name}: {len(args)} vs {len(func.args)}")
